@@ -9,9 +9,9 @@ from props import _codec as cc
 ID = 'C01'
 COQ_MODELS = ['MCodecTxt', 'MCodec']
 COQ_HEADER = 'From KV Require Import Eqb Str.\nFrom KV.Model Require Import MCodecTxt MCodec.'
-CASE_TYPE = 'MCodec.dcase'
-CHECK_FN = 'MCodec.check_data_case'
-SHARD_SIZE = 6
+CASE_TYPE = 'list MCodec.dcase'
+CHECK_FN = 'MCodec.check_history'
+SHARD_SIZE = 5
 CASE_TIMEOUT = 120
 SEARCH_CAP = 400
 RULE = ('input = a well-formed dataset built through the real kapture classes: every part present with probability 1/2 '
@@ -64,9 +64,46 @@ def gen_cases(rng, tier):
             rows = [[cc.hx(cc.gen_float(rng)) for _ in range(w)] for _ in range(n)]
             d['points3d'] = [w, rows]
             mk(d)
-    n = 70 if tier == 'quick' else 900
+    # nested rigs, in each insertion order, with trajectories of rigs
+    for order in ('parent-first', 'child-first', 'shuffled'):
+        for _ in range(2 if tier == 'quick' else 10):
+            mk(cc.gen_dataset(rng, present={'sensors', 'rigs', 'trajectories', 'records_camera'}, size=3,
+                              nested_rigs=True, rig_order=order))
+    n = 60 if tier == 'quick' else 900
     for _ in range(n):
         mk(cc.gen_dataset(rng))
+    # histories
+    recon = {'sensors', 'records_camera', 'keypoints', 'points3d', 'observations', 'descriptors', 'matches'}
+
+    def full():
+        return cc.gen_dataset(rng, present=recon | {p for p in cc.ALL_PARTS if rng.random() < 0.3}, size=2)
+
+    def sl(path, d=None):
+        return {'op': 'save_load', 'path': path, 'data': d if d is not None else full()}
+
+    def old(path):
+        return {'op': 'old', 'path': path, 'data': cc.gen_dataset(rng, size=2)}
+    hist = [
+        [old(0), sl(0)],                                # an older dataset replaced by a 1.1 save at the same path
+        [{'op': 'probe', 'path': 0}, sl(0)],            # looked up before the directory existed
+        [sl(0), old(1), sl(0)],                         # load 1.1, load 1.0 elsewhere, load 1.1 again
+        [sl(0), sl(0)],                                 # dataset A then dataset B at the same path
+        [sl(1, cc.gen_dataset(rng, present={'sensors'}, size=1)), sl(1)],
+        [old(1), sl(0), sl(1)],
+    ]
+    b = full()
+    hist.append([sl(0, b), old(0), sl(0, b)])           # the very same dataset before and after
+    for _ in range(4 if tier == 'quick' else 60):
+        steps = []
+        for _ in range(rng.randint(2, 4)):
+            c = rng.choice(['sl', 'sl', 'old', 'probe'])
+            p_ = rng.randint(0, 1)
+            steps.append(sl(p_) if c == 'sl' else (old(p_) if c == 'old' else {'op': 'probe', 'path': p_}))
+        if not any(st['op'] == 'save_load' for st in steps):
+            steps.append(sl(rng.randint(0, 1)))
+        hist.append(steps)
+    for steps in hist:
+        cases.append({'kind': 'history', 'steps': steps, '_origin': 'gen'})
     if tier == 'thorough':
         # every pair of parts
         for a, b in itertools.combinations(cc.ALL_PARTS, 2):
@@ -75,6 +112,8 @@ def gen_cases(rng, tier):
 
 
 def run_impl(case, ctx):
+    if case['kind'] == 'history':
+        return {'steps': cc.run_history(case['steps'], ctx['tmp'], kv.case_hash(case['steps'])[:8])}
     return cc.run_data_case(case['data'], ctx['tmp'])
 
 
@@ -92,8 +131,22 @@ def _points_close(a, b):
 
 
 def oracle(case, obs):
-    """C01 stated directly on the implementation's behaviour (no Coq model involved)."""
-    d = case['data']
+    """C01 stated directly on the implementation's behaviour (no Coq model involved).
+    A history is judged step by step: the statement is per save / load, whatever happened before in the process."""
+    if case['kind'] == 'history':
+        for i, (st, o) in enumerate(zip(case['steps'], obs['steps'])):
+            if st['op'] == 'save_load':
+                sig = _oracle_data(st['data'], o)
+                if sig:
+                    before = '+'.join(x['op'] for x in case['steps'][:i]) or 'nothing'
+                    return f'after [{before}] in the same process: {sig}'
+            elif st['op'] == 'probe' and (o['exc'] or o['version'] is not None):
+                return 'version lookup on a missing directory: ' + str(o['exc'] or o['version'])
+        return None
+    return _oracle_data(case['data'], obs)
+
+
+def _oracle_data(d, obs):
     if obs['save_exc']:
         return 'saving a well-formed dataset raised ' + obs['save_exc'].split(':')[0]
     want = cc.expected_files(d)
@@ -128,10 +181,19 @@ def oracle(case, obs):
     return None
 
 
+def _data_steps(case, obs):
+    if case['kind'] == 'history':
+        return [(st['data'], o) for st, o in zip(case['steps'], obs['steps']) if st['op'] == 'save_load']
+    return [(case['data'], obs)]
+
+
 def encode(case, obs):
-    if obs['save_exc']:
-        raise RuntimeError('implementation could not save: ' + obs['save_exc'])
-    return cc.encode_data_case(case['data'], obs)
+    terms = []
+    for d, o in _data_steps(case, obs):
+        if o['save_exc']:
+            raise RuntimeError('implementation could not save: ' + o['save_exc'])
+        terms.append(cc.encode_data_case(d, o))
+    return kv.clist(terms)
 
 
 def _nrows(d):
@@ -145,11 +207,16 @@ def _nrows(d):
 
 
 def nontrivial(case, obs):
+    if case['kind'] == 'history':
+        return True
     d = case['data']
     return sum(1 for p in cc.ALL_PARTS if d[p] is not None) >= 3 and _nrows(d) >= 1
 
 
 def classify(case, obs):
+    if case['kind'] == 'history':
+        bad = any(o.get('load_exc') or o.get('save_exc') or o.get('exc') for o in obs['steps'])
+        return 'history/' + '+'.join(st['op'] for st in case['steps']) + ('/exc' if bad else '/ok')
     d = case['data']
     npart = sum(1 for p in cc.ALL_PARTS if d[p] is not None)
     n = _nrows(d)
@@ -161,6 +228,11 @@ def classify(case, obs):
 
 
 def describe(case, obs):
+    if case['kind'] == 'history':
+        return {'history': [{'op': st['op'], 'path': st['path'],
+                             'parts': [p for p in cc.ALL_PARTS if st.get('data') and st['data'][p] is not None],
+                             'load_exc': o.get('load_exc') or o.get('exc')}
+                            for st, o in zip(case['steps'], obs['steps'])]}
     d = case['data']
     return {'parts_present': [p for p in cc.ALL_PARTS if d[p] is not None], 'rows': _nrows(d),
             'files_written': sorted(obs['files'] or {}), 'load_exc': obs['load_exc'],
@@ -168,6 +240,10 @@ def describe(case, obs):
 
 
 def shrink(case):
+    if case['kind'] == 'history':
+        # not shrunk: once a step has failed the process itself may carry the stale state (a cache, a mutated
+        # default), so a shorter history that "still fails" here need not fail when replayed in a fresh process
+        return
     d = case['data']
     for p in cc.ALL_PARTS:
         if d[p] is not None and p != 'sensors':
